@@ -23,7 +23,26 @@ pub fn gen(seed: u64, tier: Tier) -> ScenarioSpec {
         let mi = rng.range(0, 6) as u8;
         cfg.force_version = Some([3, mi, rng.below(3) as u8]);
     }
+    // rare but real: an untimed game longer than 65 536 frames; a metadata element of more than 1 MiB
+    let huge = rng.chance(1, if tier == Tier::Thorough { 3000 } else { 12_000 });
+    if huge {
+        cfg.size = Some(SizeClass::Huge);
+    }
     let mut rec = gen::gen_recorder(&mut rng, &cfg);
+    if huge {
+        // keep the huge game cheap otherwise
+        rec.gecko = None;
+        if rec.ports.len() > 2 {
+            rec.ports.truncate(2);
+        }
+        for f in rec.frames.iter_mut() {
+            f.items = 0;
+        }
+    }
+    if rng.chance(1, if tier == Tier::Thorough { 2000 } else { 8000 }) {
+        let n = 1_100_000 + rng.usize_below(400_000);
+        rec.metadata = Some(gen::gen_big_tree(&mut rng, n));
+    }
     match corner {
         0 => rec.frames.clear(),
         1 => rec.metadata = None,
